@@ -155,6 +155,11 @@ func SenderConfig(prop string, r *Rand, tier string) map[string]int64 {
 	c["w_savefault"] = 0
 	switch prop {
 	case "C13":
+		// the Agglayer's records are replaced by ones that contradict the node's (a restored / foreign Agglayer)
+		c["w_contradict"] = 0
+		if r.Bool(35) {
+			c["w_contradict"] = int64(r.Range(1, 3))
+		}
 		c["w_crash"] = int64(r.Range(3, 10))
 		c["w_losedb"] = int64(r.Range(0, 4))
 		c["w_lost"] = int64(r.Range(0, 6))
@@ -163,6 +168,20 @@ func SenderConfig(prop string, r *Rand, tier string) map[string]int64 {
 		if r.Bool(25) {
 			c["w_lost"] = int64(r.Range(1, 5))
 		}
+	}
+	// every property's runs see some crash / restart histories ("all previous-certificate states" include the
+	// ones only a recovery produces: headers rebuilt from what the Agglayer reports)
+	if prop != "C13" && r.Bool(30) {
+		c["w_crash"] = int64(r.Range(1, 5))
+		c["w_losedb"] = int64(r.Range(0, 2))
+	}
+	c["w_crashsubmit"] = 0
+	if c["w_crash"] > 0 {
+		c["w_crashsubmit"] = int64(r.Range(1, 6))
+	}
+	c["ag_no_prev_ler"] = 0
+	if r.Bool(30) {
+		c["ag_no_prev_ler"] = 1
 	}
 	if r.Bool(15) { // fault-free batch
 		c["w_fault"], c["w_lost"], c["w_crash"], c["w_losedb"], c["w_savefault"] = 0, 0, 0, 0, 0
@@ -227,6 +246,8 @@ type senderWorld struct {
 	optOn bool
 	// set when the node's Start goroutine panicked (deliberate fail-stop at start-up)
 	panicMsg string
+	// the Agglayer's records were replaced by contradicting ones: only the refusal oracle applies from here on
+	contradicted bool
 }
 
 // senderOwns: which oracle groups a property's check reports. The same runs feed six properties;
@@ -388,6 +409,12 @@ func (s *senderWorld) stopNode() {
 }
 
 // readRows reads the node's certificate table through a separate read-only connection.
+// status column of the node's certificate tables (the node's own enumeration, not the wire's)
+const (
+	rowInError = 3
+	rowSettled = 4
+)
+
 type certRow struct {
 	Height    uint64
 	ID        common.Hash
@@ -491,6 +518,9 @@ func checkWireExit(be *v1types.BridgeExit, leafType uint8, on uint32, oa common.
 
 // onSubmit holds the online oracles of C02 C03 C10 C17 C19 (run inside the Agglayer model).
 func (s *senderWorld) onSubmit(sub *Submission) {
+	if s.contradicted {
+		return
+	}
 	s.rec.Stats.Inc("submissions")
 	if sub.Accepted {
 		s.rec.Stats.Inc("submissions_accepted")
@@ -600,6 +630,33 @@ func (s *senderWorld) onSubmit(sub *Submission) {
 	} else if sub.OpenCert == nil && sub.Accepted {
 		s.fail("content", "c03/prev-ler-tree", "certificate %d..%d: its previous exit root %s is not the exit tree root before block %d (%s)", sub.From, sub.To, fb32(c.PrevLocalExitRoot).Hex()[:12], sub.From, prevRoot.Hex()[:12])
 		return
+	} else {
+		// whatever the Agglayer says about it: the certificate's own previous root, if it is a root of the
+		// exit tree at all, plus its exits must give the root it names
+		pl := fb32(c.PrevLocalExitRoot)
+		k := -1
+		if pl == RefAppendRoot(nil) {
+			k = 0
+		}
+		for i, rt := range s.l2m.Tree.Roots {
+			if rt == pl {
+				k = i + 1
+			}
+		}
+		if k >= 0 {
+			t2 := RefAppend{}
+			for i := 0; i < k; i++ {
+				t2.Append(s.l2m.Tree.Leaves[i])
+			}
+			root := pl
+			for _, be := range c.BridgeExits {
+				root = t2.Append(refExitHashProto(be))
+			}
+			if root != fb32(c.NewLocalExitRoot) {
+				s.fail("content", "c03/new-ler", "certificate %d..%d: its previous exit root is the exit tree's root after %d deposits; appending its %d exit hashes there gives %s, it names %s", sub.From, sub.To, k, len(c.BridgeExits), root.Hex()[:12], fb32(c.NewLocalExitRoot).Hex()[:12])
+				return
+			}
+		}
 	}
 	// ---- C10: the signature commits to what is sent ----
 	var commitment common.Hash
@@ -718,6 +775,9 @@ func (s *senderWorld) checkCut(sub *Submission, bs []*bridgesync.Bridge, cs []*b
 
 // checkStored (C10/C13): after quiescence the node's own copy equals what was sent; one row per height.
 func (s *senderWorld) checkStored(ctx string) {
+	if s.contradicted {
+		return
+	}
 	rows, err := s.readRows("certificate_info")
 	if err != nil {
 		return
@@ -844,6 +904,7 @@ func runSender(prop string, tr *Trace, sc *Script, rec *Recorder, scratch string
 	}
 	s.ag = NewAgglayerModel(s.w, senderNetworkID, RefAppendRoot(nil))
 	s.ag.OnSubmit = s.onSubmit
+	s.ag.NoPrevLER = cfg["ag_no_prev_ler"] == 1
 	s.pv = &proverModel{s: s, w: s.w}
 	if v := s.startNode(); v != nil {
 		return v
@@ -877,7 +938,7 @@ func runSender(prop string, tr *Trace, sc *Script, rec *Recorder, scratch string
 	gen := func(r *Rand) (Op, bool) {
 		labels := s.w.ParkedLabels()
 		wts := []int{int(cfg["w_l1mine"]), int(cfg["w_l1fin"]), int(cfg["w_l1sync"]), int(cfg["w_l2block"]), int(cfg["w_epoch"]), int(cfg["w_time"]),
-			int(cfg["w_rel"]), int(cfg["w_move"]), int(cfg["w_fault"]), int(cfg["w_lost"]), int(cfg["w_crash"]), int(cfg["w_losedb"]), int(cfg["w_savefault"]), int(cfg["w_pvodd"]), int(cfg["w_opt"])}
+			int(cfg["w_rel"]), int(cfg["w_move"]), int(cfg["w_fault"]), int(cfg["w_lost"]), int(cfg["w_crash"]), int(cfg["w_losedb"]), int(cfg["w_savefault"]), int(cfg["w_pvodd"]), int(cfg["w_opt"]), int(cfg["w_crashsubmit"]), int(cfg["w_contradict"])}
 		if len(labels) == 0 {
 			wts[6], wts[8], wts[9] = 0, 0, 0
 		}
@@ -898,6 +959,9 @@ func runSender(prop string, tr *Trace, sc *Script, rec *Recorder, scratch string
 		}
 		if !hasSubmit {
 			wts[9] = 0
+			wts[15] = 0
+		} else {
+			wts[15] *= 6 // the window is short: take it when it is open
 		}
 		switch r.Pick(wts) {
 		case 0:
@@ -930,6 +994,10 @@ func runSender(prop string, tr *Trace, sc *Script, rec *Recorder, scratch string
 			return Op{K: "crash", A: []int64{1}}, true
 		case 14:
 			return Op{K: "opt"}, true
+		case 15:
+			return Op{K: "crashsubmit"}, true
+		case 16:
+			return Op{K: "contradict", A: []int64{int64(r.Intn(3))}}, true
 		case 13:
 			// the prover answers with a shorter range / has no proof yet / times out
 			return Op{K: "rel", S: "pv", A: []int64{[]int64{replyStale, replyStale, replyNotFound, replyDeadline}[r.Intn(4)]}}, true
@@ -1010,6 +1078,26 @@ func runSender(prop string, tr *Trace, sc *Script, rec *Recorder, scratch string
 				return v
 			}
 			rec.Step(fmt.Sprintf("X%d", op.Arg(0)))
+		case "contradict":
+			return s.contradict(int(op.Arg(0)))
+		case "crashsubmit":
+			// the Agglayer accepts the certificate, the node dies before it can record it
+			var p *parkedCall
+			for _, q := range s.w.Parked() {
+				if q.method == "SubmitCertificate" {
+					p = q
+				}
+			}
+			if p == nil {
+				return nil
+			}
+			rec.Stats.Inc("fault_reply_lost_after_accept")
+			rec.Stats.Inc("crash_after_accept_before_store")
+			s.w.Release(p, replyAcceptedButLost)
+			if v := s.crash(false); v != nil {
+				return v
+			}
+			rec.Step("cs")
 		case "opt":
 			s.optOn = !s.optOn
 			rec.Stats.Inc("optimistic_mode_toggled")
@@ -1050,6 +1138,9 @@ func runSender(prop string, tr *Trace, sc *Script, rec *Recorder, scratch string
 			break
 		}
 		if v := apply(op); v != nil {
+			if v == runOver {
+				return nil
+			}
 			return v
 		}
 	}
@@ -1070,10 +1161,13 @@ func (s *senderWorld) crash(loseDB bool) *Violation {
 			s.rec.Stats.Inc("crash_with_submit_in_flight")
 		}
 	}
-	s.stopNode()
+	// the process is gone: a storage fault armed for it cannot fire in the goroutines that are being torn down
 	DisarmFault(s.dbPath)
 	s.faultArmed = false
+	s.stopNode()
 	s.crashedEver = true
+	// the start-up reconciliation learns what the Agglayer holds: the relaxation for lost replies ends here
+	s.lostReplyEver = false
 	s.rec.Stats.Inc("crash_restart")
 	if loseDB {
 		removeDBFiles(s.dbPath)
@@ -1086,6 +1180,114 @@ func (s *senderWorld) crash(loseDB bool) *Violation {
 	s.goStart()
 	s.w.Quiesce()
 	return nil
+}
+
+// errRunOver ends a run early without a violation (sentinel, never reported).
+var runOver = &Violation{Oracle: "run-over"}
+
+// contradict (C13: "it refuses to proceed when its records contradict the Agglayer's"): the node is stopped, the
+// Agglayer's records are replaced by ones no honest Agglayer could hold given what the node has recorded, the
+// node is started again and everything it waits for is granted. It must neither submit anything nor touch its
+// records. The run ends here.
+//   kind 0: a different certificate at the height of the node's last certificate (which is not in error)
+//   kind 1: the Agglayer knows nothing of this network
+//   kind 2: the Agglayer's last certificate is below the node's last one
+func (s *senderWorld) contradict(kind int) *Violation {
+	rows, err := s.readRows("certificate_info")
+	if err != nil || len(rows) == 0 {
+		return nil
+	}
+	last := rows[0]
+	for _, r := range rows {
+		if r.Height > last.Height {
+			last = r
+		}
+	}
+	ac := s.ag.Certs[last.ID]
+	if ac == nil {
+		return nil
+	}
+	if s.viol != nil {
+		return s.viol
+	}
+	// stop the node first: what it does while it is down does not matter
+	DisarmFault(s.dbPath)
+	s.faultArmed = false
+	s.stopNode()
+	if kind == 0 && last.Status == rowInError {
+		kind = 2 // a different certificate over one in error is a legitimate replacement
+	}
+	if kind == 2 && last.Height == 0 {
+		kind = 1
+	}
+	switch kind {
+	case 0:
+		twin := *ac
+		twin.ID = keccakBytes(ac.ID[:], []byte("another history"))
+		twin.NewLER = keccakBytes(ac.NewLER[:], []byte("another history"))
+		delete(s.ag.Certs, ac.ID)
+		s.ag.Certs[twin.ID] = &twin
+		for i, c := range s.ag.Settled {
+			if c == ac {
+				s.ag.Settled[i] = &twin
+			}
+		}
+		if s.ag.Latest == ac {
+			s.ag.Latest = &twin
+		}
+	case 1:
+		s.ag.Certs, s.ag.Settled, s.ag.Latest = map[common.Hash]*AgCert{}, nil, nil
+	case 2:
+		// forget everything from the node's last height on
+		var keep []*AgCert
+		for _, c := range s.ag.Settled {
+			if c.Height < last.Height {
+				keep = append(keep, c)
+			}
+		}
+		s.ag.Settled = keep
+		s.ag.Latest = nil
+		for id, c := range s.ag.Certs {
+			if c.Height >= last.Height {
+				delete(s.ag.Certs, id)
+			}
+		}
+	}
+	s.rec.Stats.Inc(fmt.Sprintf("contradictions_kind_%d", kind))
+	before, _ := s.readRows("certificate_info")
+	nSubs := len(s.ag.Subs)
+	s.contradicted = true
+	if v := s.startNode(); v != nil {
+		return v
+	}
+	s.goStart()
+	s.w.Quiesce()
+	for i := 0; i < 150; i++ {
+		if v := s.reviveIfExited(); v != nil {
+			return v
+		}
+		if ps := s.w.Parked(); len(ps) > 0 {
+			s.w.Release(ps[0], replyOK)
+		} else if !s.ep.Tick() {
+			s.w.Advance(2 * time.Second)
+		} else {
+			s.w.Quiesce()
+		}
+	}
+	after, _ := s.readRows("certificate_info")
+	what := []string{"holds a different certificate at the node's last height", "knows nothing of this network", "is behind the node's last certificate"}[kind]
+	if len(s.ag.Subs) != nSubs {
+		sub := s.ag.Subs[len(s.ag.Subs)-1]
+		return &Violation{Oracle: "contradiction", Sig: "c13/proceeds-despite-contradiction", Detail: fmt.Sprintf("the Agglayer %s (node's last certificate: height %d, status %d), yet after the restart the node submitted a certificate (height %d, blocks %d..%d)", what, last.Height, last.Status, sub.Height, sub.From, sub.To)}
+	}
+	if fmt.Sprint(before) != fmt.Sprint(after) {
+		return &Violation{Oracle: "contradiction", Sig: "c13/records-changed-despite-contradiction", Detail: fmt.Sprintf("the Agglayer %s (node's last certificate: height %d, status %d), yet after the restart the node rewrote its certificate records", what, last.Height, last.Status)}
+	}
+	if st := s.node.Info().AggsenderStatus.Status; st == aggsendertypes.StatusCertificateStage {
+		return &Violation{Oracle: "contradiction", Sig: "c13/proceeds-despite-contradiction", Detail: fmt.Sprintf("the Agglayer %s (node's last certificate: height %d, status %d), yet the node completed its start-up reconciliation and entered the certificate stage", what, last.Height, last.Status)}
+	}
+	s.rec.Stats.Inc("contradictions_refused")
+	return runOver
 }
 
 // reviveIfExited restarts the node when its process exited at start-up (deliberate panic on a
@@ -1107,10 +1309,14 @@ func (s *senderWorld) reviveIfExited() *Violation {
 // storage error (a process exit in production): that is a crash of this incarnation, the next op
 // finds the node down and restarts it.
 func (s *senderWorld) goStart() {
-	node, ctx := s.node, s.ctx
+	node, ctx, epoch := s.node, s.ctx, s.w.Epoch
 	go func() {
 		defer func() {
 			if r := recover(); r != nil {
+				// what the goroutines of a killed incarnation do on their way out is not an event of the run
+				if !s.w.Alive(epoch) {
+					return
+				}
 				statsMu.Lock()
 				s.panicMsg = fmt.Sprint(r)
 				statsMu.Unlock()
@@ -1208,7 +1414,7 @@ func (s *senderWorld) drain(syncL1 func(uint64) *Violation, addL2 func(uint64) *
 			if s.ag.Latest != nil && s.ag.Latest.Status != agSettled {
 				if rows, err := s.readRows("certificate_info"); err == nil && len(rows) > 0 {
 					last := rows[len(rows)-1]
-					if last.Height == s.ag.Latest.Height && last.ID != s.ag.Latest.ID && last.Status == agInError {
+					if last.Height == s.ag.Latest.Height && last.ID != s.ag.Latest.ID && last.Status == rowInError {
 						sig = "c13/recovery-refuses-replacement-submitted-not-stored"
 					}
 				}
